@@ -70,6 +70,15 @@ def make_service(rpyc, counters, shared_instance=False):
         def exposed_call(self, f, x):
             return f(x)
 
+        def exposed_subscribe(self, cb):
+            # the tutorial's event pattern: keep an asynchronous wrapper of the client's callback
+            self.sub = rpyc.async_(cb)
+            return True
+
+        def exposed_publish(self, x):
+            self.sub(x)
+            return True
+
         def exposed_whoami(self):
             return id(self) and len(counters.instances) and counters.instances.index(self)
     return CountingService() if shared_instance else CountingService
